@@ -128,7 +128,51 @@ def ref_attr_eq(va, vb):
         return va is MISSING and vb is MISSING
     if isinstance(va, types.MethodType) and isinstance(vb, types.MethodType):
         return va.__func__ is vb.__func__
+    # containers and nested spec instances are compared structurally (not through the library's own __eq__ of keyed containers /
+    # generated __eq__, which are what is being checked): element by element, attribute by attribute
+    w = _CUR.get("world")
+    if w is not None and _depth[0] < 6:
+        _depth[0] += 1
+        try:
+            ka, kb = hasattr(va, "_dict") and hasattr(va, "_key"), hasattr(vb, "_dict") and hasattr(vb, "_key")
+            if ka or kb:
+                if not (ka and kb) or type(va) is not type(vb):
+                    return bool(va == vb)
+                if hasattr(va, "_list"):
+                    return len(va._list) == len(vb._list) and all(ref_attr_eq(x, y) for x, y in zip(va._list, vb._list))
+                return set(va._dict) == set(vb._dict) and all(ref_attr_eq(va._dict[k], vb._dict[k]) for k in va._dict)
+            if hasattr(va, "__spec_class__") and not isinstance(va, type) and type(va) is type(vb) and type(va).__name__ in w.all_attrs and not _cyclic(va):
+                return ref_eq(w, va, vb)[0]
+            if type(va) is type(vb) and isinstance(va, (list, tuple)) and not _cyclic(va):
+                return len(va) == len(vb) and all(ref_attr_eq(x, y) for x, y in zip(va, vb))
+            if type(va) is type(vb) and isinstance(va, dict) and not _cyclic(va):
+                return set(va) == set(vb) and all(ref_attr_eq(va[k], vb[k]) for k in va)
+        finally:
+            _depth[0] -= 1
     return bool(va == vb)
+
+
+_CUR = {}
+_depth = [0]
+
+
+def _cyclic(v, seen=None, d=0):
+    """Whether a value reaches itself (structural comparison would not terminate: leave those to ==)."""
+    seen = seen or set()
+    if id(v) in seen:
+        return True
+    if d > 8 or isinstance(v, (int, float, str, bytes, bool, type(None), type)):
+        return False
+    seen = seen | {id(v)}
+    if isinstance(v, dict):
+        return any(_cyclic(x, seen, d + 1) for x in v.values())
+    if isinstance(v, (list, tuple, set, frozenset)):
+        return any(_cyclic(x, seen, d + 1) for x in v)
+    if hasattr(v, "_dict") and hasattr(v, "_key"):
+        return any(_cyclic(x, seen, d + 1) for x in v._dict.values())
+    if hasattr(v, "__spec_class__") and not isinstance(v, type):
+        return any(_cyclic(x, seen, d + 1) for x in object.__getattribute__(v, "__dict__").values())
+    return False
 
 
 def ref_eq(world, a, b):
@@ -183,7 +227,10 @@ def top_level_names(text):
 
 
 def run_case(ctx, case):
+    _CUR.clear()
+    _depth[0] = 0
     world = grammar.build_world(case["world"])
+    _CUR["world"] = world
     pool = []
     for spec in case["pool"]:
         inst = build_instance(world, spec, pool)
@@ -220,6 +267,21 @@ def run_case(ctx, case):
                 if pos > 0 and world.attrs(type(base).__name__)[name].get("compare") is not False:
                     nontrivial = True
                 break
+        # ... and a partner whose container holds the same elements under the same keys / at the same positions, one of them
+        # differing in ONE non-key attribute (what a key-only comparison of keyed containers would overlook)
+        if T[0] in ("keyedset", "keyedlist", "list", "dict") and T[-1][0:1] == ["spec"] or T[0] in ("keyedset", "keyedlist"):
+            try:
+                twin2 = copy.deepcopy(base)
+                coll = stored(twin2, name)
+                items = list(coll.values()) if isinstance(coll, dict) else list(coll or [])
+                if items and hasattr(items[0], "__spec_class__"):
+                    first = items[0]
+                    inner = "v" if "v" in type(first).__spec_class__.attrs else "a"
+                    setattr(first, inner, (getattr(first, inner, 0) or 0) + 1)
+                    if not ref_attr_eq(stored(twin2, name), cur):
+                        pool.append(twin2)
+            except ops.CLEAN + (RecursionError, AttributeError, TypeError):
+                pass
     if any(isinstance(stored(x, n), (types.MethodType, types.FunctionType, type, types.ModuleType)) for x in pool for n in ("cb", "cb2") if n in world.attrs(type(x).__name__)):
         nontrivial = True
 
